@@ -6,6 +6,7 @@ from platform import python_version_tuple
 PY2 = python_version_tuple()[0] == "2"
 
 import re
+import codecs
 from functools import partial
 
 from ural.utils import quote
@@ -24,6 +25,14 @@ C1_CONTROL_CHARS_RE = re.compile("[\x80-\x9f]")
 
 def quote_match(match):
     return quote(match.group(0))
+
+
+def requote_undecodable_bytes(error):
+    chunk = bytearray(error.object[error.start : error.end])
+    return "".join("%%%02X" % byte for byte in chunk), error.end
+
+
+codecs.register_error("ural_requote", requote_undecodable_bytes)
 
 
 def _unquote_impl(string, only_printable=False, unsafe=None):
@@ -68,7 +77,7 @@ def _generate_unquoted_parts(string, only_printable=False, unsafe=None):
 
         m = ascii_match.group(1)
         c = _unquote_impl(m, only_printable=only_printable, unsafe=unsafe).decode(
-            "utf-8", "replace"
+            "utf-8", "ural_requote"
         )
 
         # NOTE: C1 control characters are multi-byte in utf-8 so they can
